@@ -400,6 +400,37 @@ func c19Faithful(c *core.Ctx) {
 					bad = fmt.Sprintf("after describing the arguments with String() they are {%s}, want {%s}", show(after), show(wargs))
 					return
 				}
+				// every look-up by name matches regardless of the case of the first letter
+				for k, vs := range wargs {
+					r, size := utf8.DecodeRuneInString(k)
+					if r == utf8.RuneError {
+						continue
+					}
+					for _, spelled := range []string{k, string(unicode.ToLower(r)) + k[size:]} {
+						if fr, _ := utf8.DecodeRuneInString(spelled); unicode.ToUpper(fr) != r {
+							continue // the lower-case form of this letter does not map back to it
+						}
+						found, ok := p.Args().Find(cd.ArgType(spelled))
+						if !ok || fmt.Sprintf("%q", found) != fmt.Sprintf("%q", vs) {
+							bad = fmt.Sprintf("Find(%q) = %q (found: %v), want %q", spelled, found, ok, vs)
+							return
+						}
+						if !p.Args().Has(cd.ArgType(spelled)) {
+							bad = fmt.Sprintf("Has(%q) is false although the argument was given", spelled)
+							return
+						}
+						for _, v := range vs {
+							if !p.Args().Has(cd.ArgType(spelled), v) {
+								bad = fmt.Sprintf("Has(%q, %q) is false although the argument %s carries that value", spelled, v, k)
+								return
+							}
+						}
+						if p.Args().Has(cd.ArgType(spelled), "no-such-value-zz") {
+							bad = fmt.Sprintf("Has(%q, a value it does not carry) is true", spelled)
+							return
+						}
+					}
+				}
 				model := map[string][]string{}
 				for k, v := range wargs {
 					model[k] = append([]string{}, v...)
